@@ -167,15 +167,26 @@ func Classify(o *Outcome) {
 }
 
 var progress atomic.Int64
+var ticks atomic.Int64
+var deadline atomic.Int64 // unix nanos; 0 = none
+
+// Tick tells the watchdog that a long workload (a sweep) is still making progress.
+func Tick() { ticks.Add(1) }
+
+// PastDeadline reports whether the batch's time budget is used up; sweeps stop early when it is.
+func PastDeadline() bool {
+	d := deadline.Load()
+	return d != 0 && time.Now().UnixNano() > d
+}
 
 func watchdog(limit time.Duration, out string) {
 	go func() {
-		last, since := int64(-1), time.Now()
+		last, lastTick, since := int64(-1), int64(-1), time.Now()
 		for {
 			time.Sleep(500 * time.Millisecond)
-			cur := progress.Load()
-			if cur != last {
-				last, since = cur, time.Now()
+			cur, tk := progress.Load(), ticks.Load()
+			if cur != last || tk != lastTick {
+				last, lastTick, since = cur, tk, time.Now()
 				continue
 			}
 			if cur >= 0 && time.Since(since) > limit {
@@ -233,6 +244,9 @@ func batch[W any](t *testing.T, h Harness[W]) {
 		defer hashLog.Close()
 	}
 	t0 := time.Now()
+	if budget > 0 {
+		deadline.Store(t0.Add(time.Duration((budget + 5) * float64(time.Second))).UnixNano())
+	}
 	for n := 0; n < count; n++ {
 		if budget > 0 && time.Since(t0).Seconds() > budget {
 			break
